@@ -149,7 +149,7 @@ register(
     profiles=["checked", "release", "relchk"],
     falsifier=fals_analyses.falsify_C20,
     partial=["integer overflow of + and * on u64/usize is outside the model (tripwire: the overflow-checking release build in the falsifier)",
-             "the guards of the ROS 2 analyses are covered by C07's equalities with the panic-free naive evaluation; findings K1, F11 (debug hang in bw), F12 are genuine violations and recorded; F9 (EDF underflow for a silent task), F5 (wcet extrapolate(0)), F2 and F3 (with their consequences, incl. the debug assertion in bw) were repaired by fix: commits"],
+             "the guards of the ROS 2 analyses are theorems too (ros_*_total, ros_bw_profile_independent; bw for limit >= 1, timer/polling point/chain for a scalar WCET of the analysed callback); findings K1, F11 (debug hang in bw), F12 are genuine violations and recorded; F9 (EDF underflow for a silent task), F5 (wcet extrapolate(0)), F2 and F3 (with their consequences, incl. the debug assertion in bw) were repaired by fix: commits"],
     explanation="WF input => no guard of the model fails and no fuel runs out (subtraction / index / assertion safety of search, the nine analyses, demand queries, step_offsets; termination of the default service_time, of extrapolation, of the extrapolating iterator; brute-force cross-check of fixed_point::search equals the search). The correspondence streams run against the build with debug assertions and overflow checks; the falsifier runs the same operations through three builds and compares the outcomes.",
 )
 
